@@ -1202,6 +1202,19 @@ func c06ActionParsed(c *Check, rule string) {
 			}
 			return (cs == w) == (be.Op == token.EQL), true
 		}
+		// a named boolean (`isReject := args[0] == "reject"`) stands for its definition
+		base := val
+		val = func(atom ast.Expr) (bool, bool) {
+			if v, k := base(atom); k {
+				return v, k
+			}
+			if _, isID := ast.Unparen(atom).(*ast.Ident); isID {
+				if def := resolveLocal(info, r.FI.Decl.Body, atom); def != atom && def != nil {
+					return evalBoolUnder(def, base)
+				}
+			}
+			return false, false
+		}
 		binWorld := r.F.World(val)
 		world := func(b *cfgBlock, i int) bool {
 			if cond, isCase := r.F.Cond(b); cond != nil && isCase {
